@@ -53,3 +53,27 @@ Fixpoint for_each {A S : Type} (l : list A) (body : A -> S -> pyres S) (s : S) :
 (* bytearray(l): every element must be in range(256) *)
 Definition py_bytearray (l : list Z) : pyres (list Z) :=
   if forallb (fun b => (0 <=? b) && (b <? 256)) l then POk l else PRaise PyValueError.
+
+(* ---- what the leaf codecs need (gen/PyLeaf.v) ---- *)
+
+(* UnsignedType / SignedType / FloatType / DoubleType objects: only get_length() is used *)
+Record pynum := { get_length : Z }.
+
+(* a > b / c for ints a b c: Python divides to a float and compares the int with it exactly; the quotient is exact whenever b / c
+   is representable (the one use is 2**length / 2 with length <= 64), so the comparison is that of the rationals *)
+Definition py_gt_truediv (a b c : Z) : bool := if 0 <? c then b <? a * c else a * c <? b.
+
+(* little-endian bytes *)
+Fixpoint le_bytes (n : nat) (z : Z) : list Z :=
+  match n with O => [] | S n' => (z mod 256) :: le_bytes n' (z / 256) end.
+Fixpoint le_value (l : list Z) : Z :=
+  match l with [] => 0 | b :: l' => b + 256 * le_value l' end.
+
+(* struct.pack("f"/"d", x) and struct.unpack(...)[0] with a float carried as its IEEE bit pattern: the bytes of the pattern,
+   little-endian (native order on the platforms fcp targets; DESIGN, trusted base) *)
+Definition py_struct_pack_f (bits : Z) : list Z := le_bytes 4 bits.
+Definition py_struct_pack_d (bits : Z) : list Z := le_bytes 8 bits.
+Definition py_struct_unpack_f (l : list Z) : pyres Z :=
+  if Nat.eqb (length l) 4 then POk (le_value l) else PRaise PyValueError.
+Definition py_struct_unpack_d (l : list Z) : pyres Z :=
+  if Nat.eqb (length l) 8 then POk (le_value l) else PRaise PyValueError.
